@@ -309,6 +309,12 @@ def run_unit(unit, progress):
         ctr = itertools.count()
 
         presync = rnd.random() < 0.3
+        hops = rnd.choice([1, 1, 2, 3])
+        call_ctr = itertools.count()
+        nel = len(data)
+        easy = rnd.choice([set(), set(), {nel - 1}, {0}, {nel - 1, 0}, set(j for j in range(nel) if rnd.random() < 0.4)])
+        if nel and len(easy & set(range(nel))) == nel:
+            easy = set()
 
         @A()
         def normalise(x):
@@ -320,8 +326,12 @@ def run_unit(unit, progress):
                 # an ordinary synchronous call of another (non-blocking) async function before the request
                 x = normalise(x)
                 c["keys_making_a_sync_call_first"] = c.get("keys_making_a_sync_call_first", 0) + 1
-            if blocking:
-                yield harness.HItem(rt, 0, "k%d" % next(ctr), ("c14", next(ctr)))
+            idx = next(call_ctr)
+            if blocking and idx not in easy:
+                # (the key of some elements answers at once - a None element, a cached row - while the others
+                # need one, two or three requests one after another)
+                for _hop in range(hops):
+                    yield harness.HItem(rt, 0, "k%d" % next(ctr), ("c14", next(ctr)))
             return twin(x)
 
         it = lambda: as_iterable(data, itkind)
@@ -411,8 +421,12 @@ def run_unit(unit, progress):
             viol.append(("differs-from-builtin", {"expected": repr(want)[:300], "observed": repr(got)[:300]}))
         if blocking and want[0] == "val" and len(data) >= 1 and helper not in ("badcall",):
             c["flush_count_checks"] = c.get("flush_count_checks", 0) + 1
-            if flushes != 1:
-                viol.append(("not-one-batching-round", {"flushes": flushes, "elements": len(data)}))
+            if hops > 1:
+                c["flush_count_checks_with_keys_needing_several_requests"] = c.get("flush_count_checks_with_keys_needing_several_requests", 0) + 1
+            if easy & set(range(nel)):
+                c["flush_count_checks_with_some_keys_answering_at_once"] = c.get("flush_count_checks_with_some_keys_answering_at_once", 0) + 1
+            if flushes != hops:
+                viol.append(("not-one-flush-per-batching-round", {"flushes": flushes, "rounds": hops, "elements": len(data), "elements_whose_key_does_not_block": sorted(easy & set(range(nel)))}))
         for v in viol:
             if len(res["violations"]) < 8:
                 res["violations"].append(
